@@ -150,7 +150,7 @@ def eval_inv(eng, text, fr, old=None):
 def assume_invs(eng, spec, fr):
     eng.assuming = True
     try:
-        for nm, text in spec.invariants:
+        for nm, text in list(spec.invariants) + list(getattr(spec, "assumed", [])):
             eng.assume(eval_inv(eng, text, fr))
     finally:
         eng.assuming = False
